@@ -44,6 +44,8 @@ ASSUMPTIONS = [
     "after the read - not between two bytecodes of an __enter__/__exit__",
     "__enter__ itself does not raise (a CursorAwareWindow whose cursor query fails never entered its context); SIGINT handlers "
     "were installed from Python (signal.getsignal is not None); one thread runs a whole script",
+    "nested entry of the SAME context-manager object (`with cm: with cm:`) is outside the domain: context managers are not "
+    "re-entrant by Python convention (decision of the coordinator); re-use after leaving is covered",
     "cursor visibility / alternate screen / main-screen writes are read off the window's output stream with the regenerated "
     "blessed capability strings (TERM=xterm); 'main screen untouched' = no output other than mode switches lands while the "
     "alternate screen is not active between entering and leaving a FullscreenWindow",
@@ -55,8 +57,13 @@ ASSUMPTIONS = [
     "entered, so 'leaving the context' does not apply - not flagged, by decision",
 ]
 LEVEL_NOTE = ("PARTIAL: proof over an abstract OS state whose POSIX semantics are specified by the model (assumption, cross-checked on a "
-              "real pty each run); exceptions only at operation boundaries / the blocked select; D18 (threadsafe_event_trigger leaks "
-              "two pipe fds) is an open known finding: the descriptor clause carries the complementary hypothesis. trusted: Lean "
+              "real pty each run); the theorems are consequences of the model's own save/set/restore structure, so the weight of the "
+              "evidence is on the real-pty tie (model snapshots vs observed tcgetattr/F_GETFL/getsignal/wake-up fd/fds/output after every "
+              "step) and the before/after oracle; exceptions only at operation boundaries / the blocked select / after the read / at a "
+              "write inside a render; hypotheses of C12_restore_partial: NoLeak (complement of D18: threadsafe_event_trigger leaks two "
+              "pipe fds), NoCrash (complement of D36: a render cut short leaves the cursor hidden when hide_cursor=False), NoEnv (nobody "
+              "else changes tty attributes / status flags / SIGINT handler WHILE a context is active - such changes are covered between "
+              "uses: C12_reuse); main-screen clause: NoScreenSwitch (complement of D26). trusted: Lean "
               "kernel + propext/Classical.choice/Quot.sound, the hand-written model, the harness' observation code")
 TRUSTED = ["harness/props/c12.py observation of the live process (tcgetattr, F_GETFL, getsignal, set_wakeup_fd probe, /proc/self/fd) "
            "and its evaluation of symbolic tty terms on a scratch pty"]
@@ -96,6 +103,19 @@ class PtyIn:
 
     def read(self, n=1):
         return os.read(self.fd, 1).decode("latin-1")
+
+
+class FailingOut(io.StringIO):
+    """window output stream whose n-th next write can be made to raise (a closed pipe, a full disk, a dead ssh)"""
+    fail_in = None
+
+    def write(self, text):
+        if self.fail_in is not None:
+            self.fail_in -= 1
+            if self.fail_in <= 0:
+                self.fail_in = None
+                raise OSError("write failed (injected)")
+        return super().write(text)
 
 
 class OsShim:
@@ -180,7 +200,7 @@ CTX_TOKENS = (["(I%d%d" % (a, b) for a in (0, 1) for b in (0, 1)] + ["(F0", "(F1
               ["(C%d%d" % (a, b) for a in (0, 1) for b in (0, 1)] + ["(B", "(N", "(M0", "(M1"])
 
 
-def gen_body(r, depth, inp_se, hstate, main, budget, canon_risk=False):
+def gen_body(r, depth, inp_se, hstate, main, budget, canon_risk=False, has_win=False):
     """-> token list (without the closing paren).
     inp_se: sigint_event of the innermost enclosing Input (None = no Input in scope);
     hstate: SIGINT handler installed at this point: 'd' default, 'o' other (SIG_IGN / user / an outer Input's)"""
@@ -200,7 +220,7 @@ def gen_body(r, depth, inp_se, hstate, main, budget, canon_risk=False):
                 cr = False
                 if se and main:
                     hs = "o"
-            toks += gen_body(r, depth + 1, se, hs, main, budget, cr)
+            toks += gen_body(r, depth + 1, se, hs, main, budget, cr, has_win or c[1] in "FC")
             if toks[-1] in ("!", "#raised"):
                 return toks
             toks.append(")")
@@ -218,7 +238,11 @@ def gen_body(r, depth, inp_se, hstate, main, budget, canon_risk=False):
                 return toks + ["q3", "#raised"]         # default handler: KeyboardInterrupt inside select
             else:
                 toks.append("q0")
+        elif x < 0.77:
+            toks.append("r")
         elif x < 0.8:
+            if has_win:
+                return toks + ["R%d" % r.choice([0, 1, 1, 2]), "#raised"]     # a write of the render raises
             toks.append("r")
         elif x < 0.9 and in_input:
             toks.append(r.choice(["t", "T", "T"]))
@@ -270,7 +294,7 @@ def rand_case(r):
     se = (top[2] == "1") if top.startswith("(I") else None
     hs = "d" if sig0 == "d" and not (se and main) else "o"
     budget = [9]
-    inner = gen_body(r, 1, se, hs, main, budget, top.startswith("(M"))
+    inner = gen_body(r, 1, se, hs, main, budget, top.startswith("(M"), top[1] in "FC")
     first = [top] + inner + [")"]
     toks = balance(first)
     if toks == first and top[1] != "F" and r.random() < 0.4:
@@ -281,7 +305,7 @@ def rand_case(r):
             cur = r.choice(["d", "i", "D", "u1", "u2"])
             steps.append("es" + cur)
         hs2 = "d" if cur == "d" and not (se and main) else "o"
-        inner2 = gen_body(r, 1, se, hs2, main, [5], top.startswith("(M"))
+        inner2 = gen_body(r, 1, se, hs2, main, [5], top.startswith("(M"), top[1] in "FC")
         toks = balance(first + steps + ["(=0"] + inner2 + [")"])
     return dict(main=int(main), sig0=sig0, wake0=int(wake0), nonblock0=int(r.random() < 0.25), append0=int(r.random() < 0.2),
                 attrs=rand_attr_spec(r), given=[rand_attr_spec(r), rand_attr_spec(r)], toks=toks)
@@ -301,6 +325,15 @@ def corpus_cases():
             body = ["q1"] if top[1] == "I" else []
             out.append(dict(base, main=1, sig0="d", toks=[top] + body + [")"] + env + ["(=0"] + body + [")"]))
         out.append(dict(base, main=0, sig0="d", toks=[top, ")", "et0", "ef%d" % os.O_APPEND, "(=0", ")"]))
+    # D36: a write inside render_to_terminal raises (hide_cursor=False: the cursor stays hidden after the exit)
+    for top in ("(F0", "(F1", "(C00", "(C10", "(C11"):
+        for k in (0, 1, 2):
+            out.append(dict(base, main=1, sig0="d", toks=[top, "R%d" % k, ")"]))
+            out.append(dict(base, main=1, sig0="d", toks=[top, "r", "R%d" % k, ")"]))
+    out.append(dict(base, main=1, sig0="d", toks=["(F0", "(I00", "R1", ")", ")"]))
+    out.append(dict(base, main=1, sig0="d", toks=["(I00", "(C00", "R1", ")", ")"]))
+    # D18 and D26 at the same exit (each clause is judged on its own)
+    out.append(dict(base, main=1, sig0="d", toks=["(F1", "(I00", "(F0", "q1", "r", "T", ")", "q0", "q0", ")", "(C10", "r", ")", ")"]))
     return out
 
 
@@ -348,6 +381,9 @@ class Runner:
         self.entries = []        # Input objects in ENTRY order (the model numbers Inputs per entry)
         self.raised = False
         self.problem = None
+        self.enter_failed = None
+        self.asserts = []        # expectations about return values that failed
+        self.op_win = None
 
     # -- setup / teardown --
     def setup(self):
@@ -366,7 +402,7 @@ class Runner:
         fcntl.fcntl(self.slave, fcntl.F_SETFL, fl)
         self.fl0 = fcntl.fcntl(self.slave, fcntl.F_GETFL)
         self.in_stream = PtyIn(self.slave)
-        self.out = io.StringIO()
+        self.out = FailingOut()
         self.user_pipe = None
         self.old_sig = signal.getsignal(signal.SIGINT)
         self.old_wake = None
@@ -511,10 +547,20 @@ class Runner:
 
     def do_op(self, tok, stack):
         inp = next((o for t, o in reversed(stack) if t[1] == "I"), None)
+        inp_tok = next((t for t, o in reversed(stack) if t[1] == "I"), None)
         win = next((o for t, o in reversed(stack) if t[1] in "FC"), None)
+        self.op_win = next((t for t, o in reversed(stack) if t[1] in "FC"), None)
         if tok == "r":
             if win is not None:
                 win.render_to_terminal([fmtstr("ab")])
+            return
+        if tok.startswith("R"):        # a render whose (k+1)-th write raises
+            if win is not None:
+                self.out.fail_in = int(tok[1:]) + 1
+                try:
+                    win.render_to_terminal([fmtstr("ab")])
+                finally:
+                    self.out.fail_in = None
             return
         if tok.startswith("et"):       # somebody else changes the tty attributes
             termios.tcsetattr(self.slave, termios.TCSANOW, apply_env_tty(termios.tcgetattr(self.slave), int(tok[2:])))
@@ -545,7 +591,10 @@ class Runner:
             th = threading.Timer(0.03, lambda: os.kill(pid, signal.SIGINT))
             th.start()
             try:
-                inp.send(0.6)
+                got = inp.send(0.6)
+                # the Input's own handler is installed during the request: SIGINT must come back as exactly that event
+                if self.main and inp_tok[2] == "1" and not isinstance(got, cevents.SigIntEvent):
+                    self.asserts.append("q3 under sigint_event=True returned %r instead of a SigIntEvent" % (got,))
             finally:
                 try:
                     th.join(2.0)
@@ -567,21 +616,26 @@ class Runner:
                 cm, tok = self.make(tok)
                 j = self.skip(toks, i + 1)
                 before = len(self.snaps) - 1
+                entered = False
                 try:
                     with cm:
+                        entered = True
                         if tok[1] == "I":
                             self.entries.append(cm)
-                        self.events.append(("enter", tok, self.snapshot(), before))
+                        self.events.append(("enter", tok, self.snapshot(), before, None))
                         self.exec_level(toks, i + 1, stack + [(tok, cm)])
                 finally:
-                    self.events.append(("exit", tok, self.snapshot(), before))
+                    if entered:
+                        self.events.append(("exit", tok, self.snapshot(), before, None))
+                    else:
+                        self.enter_failed = tok
                 i = j
             else:
                 before = len(self.snaps) - 1
                 try:
                     self.do_op(tok, stack)
                 finally:
-                    self.events.append(("op", tok, self.snapshot(), before))
+                    self.events.append(("op", tok, self.snapshot(), before, self.op_win))
                 i += 1
         return i
 
@@ -609,8 +663,15 @@ class Runner:
                 self.raised = True
             else:
                 self.problem = "unexpected %s: %s" % (type(e).__name__, e)
+        except OSError as e:
+            if "write failed (injected)" in str(e):
+                self.raised = True
+            else:
+                self.problem = "unexpected %s: %s" % (type(e).__name__, e)
         except BaseException as e:  # noqa: BLE001
             self.problem = "unexpected %s: %s" % (type(e).__name__, e)
+        if self.enter_failed and not self.problem:
+            self.problem = "__enter__ of %s raised" % self.enter_failed
 
     def run(self):
         self.setup()
@@ -739,37 +800,43 @@ def oracle(c):
     toks = c["toks"]
     # leaks expected from D18: count T operations executed inside each context (by position in the event list)
     enters = []
-    for k, (kind, tok, si, before) in enumerate(r.events):
+    for k, (kind, tok, si, before, _w) in enumerate(r.events):
         if kind == "enter":
             enters.append((k, tok, before))
         elif kind == "exit":
+            if not enters:
+                out.append(("exit of %s without a recorded entry" % tok, None))
+                continue
             k0, tok0, before0 = enters.pop()
             a, b = r.snaps[before0], r.snaps[si]
             inside = r.events[k0 + 1:k]
             n_ts = sum(1 for e in inside if e[0] == "op" and e[1] == "T")
-            what = []
+            how = "by exception" if any(e[1] == "!" for e in inside) or r.raised else "normally"
+            items = []          # (what, footprint): every clause is judged on its own
             if a["tty"] != b["tty"]:
-                what.append("tty attributes differ")
+                items.append(("tty attributes differ", None))
             if a["fl"] != b["fl"]:
-                what.append("file status flags %#o -> %#o" % (a["fl"], b["fl"]))
+                items.append(("file status flags %#o -> %#o" % (a["fl"], b["fl"]), None))
             if a["sig"] != b["sig"]:
-                what.append("SIGINT handler %r -> %r" % (a["sig"], b["sig"]))
+                items.append(("SIGINT handler %r -> %r" % (a["sig"], b["sig"]), None))
             if a["wake"] != b["wake"]:
-                what.append("signal wake-up fd %r -> %r" % (a["wake"], b["wake"]))
-            fp = None
+                items.append(("signal wake-up fd %r -> %r" % (a["wake"], b["wake"]), None))
             if a["fds"] != b["fds"]:
-                leaked = b["fds"] - a["fds"]
-                if not what and not (a["fds"] - b["fds"]) and n_ts and len(leaked) == 2 * n_ts:
-                    fp = "D18"
-                what.append("descriptors leaked: %d" % len(leaked) if leaked else "descriptors closed that were open before")
+                leaked, closed = b["fds"] - a["fds"], a["fds"] - b["fds"]
+                # footprint D18: nothing closed, and exactly two descriptors per threadsafe_event_trigger call made inside
+                fp = "D18" if (not closed and n_ts and len(leaked) == 2 * n_ts) else None
+                items.append(("descriptors leaked: %d" % len(leaked) if leaked else "descriptors closed that were open before", fp))
+            # footprint D36: a render raised at a write after the first one, in a window with hide_cursor=False, inside
+            crash36 = any(e[0] == "op" and e[1].startswith("R") and int(e[1][1:]) >= 1 and e[4] is not None and e[4][2] == "0"
+                          for e in inside)
             if tok0[1] in "FC" and tok0[2] == "1" and not b["cur"]:
-                what.append("cursor still hidden")
+                items.append(("cursor still hidden", None))
             if a["cur"] and not b["cur"]:
-                what.append("cursor was visible before, hidden after")
+                items.append(("cursor was visible before, hidden after", "D36" if crash36 else None))
             if tok0[1] == "F" and b["alt"]:
-                what.append("alternate screen still active")
+                items.append(("alternate screen still active", None))
             if not a["alt"] and b["alt"]:
-                what.append("alternate screen active after, not before")
+                items.append(("alternate screen active after, not before", None))
             if tok0[1] == "F" and b["main_writes"] != a["main_writes"]:
                 # footprint D26: a FullscreenWindow was entered and left inside this one before the first write
                 # that reached the main screen
@@ -779,16 +846,15 @@ def oracle(c):
                         break
                     if e[0] == "exit" and e[1][1] == "F":
                         inner_left = True
-                if inner_left and not what:
-                    fp = "D26"
-                what.append("main screen written to while the FullscreenWindow context was active")
-            if what:
-                out.append(("leaving %s (%s): %s" % (tok0, "by exception" if any(e[1] == "!" for e in inside) or r.raised else "normally",
-                                                      "; ".join(what)), fp if len(what) == 1 else None))
+                items.append(("main screen written to while the FullscreenWindow context was active", "D26" if inner_left else None))
+            for what, fp in items:
+                out.append(("leaving %s (%s): %s" % (tok0, how, what), fp))
         elif kind == "op" and tok.startswith("q"):
             a, b = r.snaps[before], r.snaps[si]
             if (a["fl"] ^ b["fl"]) & os.O_NONBLOCK:
                 out.append(("after request %s the stream's O_NONBLOCK bit changed (%#o -> %#o)" % (tok, a["fl"], b["fl"]), None))
+    for msg in r.asserts:
+        out.append((msg, None))
     if not r.main and r.final_wake != -1:
         out.append(("wake-up fd set after a script run in a non-main thread", None))
     return out
